@@ -67,8 +67,8 @@ func C17(run *report.Run) {
 		}
 	}
 	hdrVariants := []string{"none", "op", "pathitem", "two-casings", "two-distinct", "ref"}
-	secVariants := []string{"none", "bearer-global", "apikey-op", "both", "bearer-op-override"}
-	second := []string{"/q", "/a/{x}"}
+	secVariants := []string{"none", "bearer-global", "apikey-op", "both", "bearer-op-override", "alternatives-later"}
+	second := []string{"/q", "/a/{x}", "/a/{x}/c"}
 	var states []BState
 	for _, ms := range methodSets {
 		for _, hv := range hdrVariants {
@@ -87,7 +87,11 @@ func C17(run *report.Run) {
 									}
 								}
 								s := &spec.Spec{}
-								pi := &spec.PathItem{Template: "/a/b"}
+								primary := "/a/b"
+								if sp2 == "/a/{x}/c" {
+									primary = "/a/b/c" // three segments deep: static child next to a variable child with deeper paths
+								}
+								pi := &spec.PathItem{Template: primary}
 								for i, m := range ms {
 									op := &spec.Op{Method: m, Responses: []*spec.Response{{Status: "default", Desc: "d"}}}
 									switch hv {
@@ -120,6 +124,11 @@ func C17(run *report.Run) {
 										if i == 0 {
 											op.Security = &[]spec.SecReq{}
 										}
+									case "alternatives-later":
+										// the first operation inherits the global bearer; the last lists bearer again and then a key
+										if i == len(ms)-1 && i > 0 {
+											op.Security = &[]spec.SecReq{{"b"}, {"k"}}
+										}
 									}
 									pi.Ops = append(pi.Ops, op)
 								}
@@ -138,7 +147,7 @@ func C17(run *report.Run) {
 									s.Security = &[]spec.SecReq{{"b"}}
 								case "apikey-op":
 									s.Comp.Security = []spec.SecScheme{{Key: "k", Type: "apiKey", In: "header", Name: "x-key"}}
-								case "both":
+								case "both", "alternatives-later":
 									s.Comp.Security = []spec.SecScheme{{Key: "b", Type: "http", Scheme: "bearer"}, {Key: "k", Type: "apiKey", In: "header", Name: "x-key"}}
 									s.Security = &[]spec.SecReq{{"b"}}
 								}
@@ -152,8 +161,11 @@ func C17(run *report.Run) {
 									pi2.Ops = append(pi2.Ops, &spec.Op{Method: "OPTIONS", Responses: []*spec.Response{{Status: "default", Desc: "d"}}})
 								}
 								s.Paths = []*spec.PathItem{pi, pi2}
+								if sp2 == "/a/{x}/c" {
+									s.Paths = append(s.Paths, &spec.PathItem{Template: "/a/b/d", Ops: []*spec.Op{{Method: "PUT", Responses: []*spec.Response{{Status: "default", Desc: "d"}}}}})
+								}
 								id := fmt.Sprintf("cors[methods=%s,hdr=%s,sec=%s,options=%s,second=%s,secondOptions=%s,cors=%s]", strings.Join(ms, "+"), hv, sv, b01(opt), sp2, b01(sp2opt), b01(cors))
-								pl := &drv.CorsPayload{State: id, Cors: cors, Undeclared: []string{"/zz", "/a", "/a/b/c"}}
+								pl := &drv.CorsPayload{State: id, Cors: cors, Undeclared: []string{"/zz", "/a", "/a/b/c/zz"}}
 								for _, p := range s.Paths {
 									cp := drv.CorsPath{Path: p.Template, ReqPath: strings.ReplaceAll(p.Template, "{x}", "zz"), Headers: corsHeadersModel(s, p)}
 									for _, o := range p.Ops {
